@@ -37,7 +37,14 @@ pub enum SrcOp {
 #[derive(Clone, Debug, Serialize, Deserialize)]
 pub enum Step {
     PollSource(usize),
-    Create { slot: usize, react: React, values: Vec<u32> },
+    Create {
+        slot: usize,
+        react: React,
+        values: Vec<u32>,
+        /// a Barrier<u64> (the type `TriggerOtherType` triggers) instead of a Barrier<u32>
+        #[serde(default)]
+        other: bool,
+    },
     /// poll `barrier.wait()` once; a returned handle is kept
     Wait { slot: usize },
     /// drop the oldest handle held for this barrier
@@ -60,6 +67,10 @@ pub struct Scenario {
     /// mode 1: corrupting reads performed back to back (no await between them) per round; 0 = 1
     #[serde(default)]
     pub fs_burst: u32,
+    /// mode 1: the barrier is created by the host software itself, in the very tick of its first
+    /// corrupting reads (instead of by the test before the first step)
+    #[serde(default)]
+    pub fs_inside: bool,
     pub seed: u64,
 }
 
@@ -91,6 +102,8 @@ struct MBarrier {
     /// triggers reported and not yet returned by wait: (value, source that is suspended on it)
     queue: VecDeque<(u32, Option<usize>)>,
     live: bool,
+    /// listens for u64 triggers
+    other: bool,
 }
 
 #[derive(Clone, Debug, PartialEq)]
@@ -121,7 +134,7 @@ impl Property for C20 {
     }
     fn budget(tier: Tier) -> u64 {
         match tier {
-            Tier::Quick => 150_000,
+            Tier::Quick => 1_000_000,
             Tier::Thorough => 5_000_000,
         }
     }
@@ -129,7 +142,7 @@ impl Property for C20 {
     fn generate(rng: &mut Rng, _idx: u64, _tier: Tier) -> Scenario {
         if rng.chance(1, 200) {
             // mode 2: a long run of triggers that match nothing, inside one poll of a runtime-driven task
-            return Scenario { mode: 2, sources: vec![], schedule: vec![], fs_reads: rng.range(1, 600) as u32, fs_match: rng.bool(), fs_drop_after: None, fs_burst: 0, seed: rng.next_u64() };
+            return Scenario { mode: 2, sources: vec![], schedule: vec![], fs_reads: rng.range(1, 600) as u32, fs_match: rng.bool(), fs_drop_after: None, fs_burst: 0, fs_inside: false, seed: rng.next_u64() };
         }
         if rng.chance(1, 40) {
             return Scenario {
@@ -140,6 +153,7 @@ impl Property for C20 {
                 fs_match: rng.chance(3, 4),
                 fs_drop_after: if rng.chance(1, 3) { Some(rng.range(0, 3) as u32) } else { None },
                 fs_burst: rng.range(1, 3) as u32,
+                fs_inside: rng.chance(1, 3),
                 seed: rng.next_u64(),
             };
         }
@@ -207,7 +221,9 @@ impl Property for C20 {
                         }
                         barriers[slot] = Some((react, values.clone()));
                         order.push(slot);
-                        Step::Create { slot, react, values }
+                        // one barrier in five listens for the other trigger type (never Panic there)
+                        let other = react != React::Panic && rng.chance(1, 5);
+                        Step::Create { slot, react, values, other }
                     }
                 }
                 2 => Step::Wait { slot },
@@ -223,7 +239,7 @@ impl Property for C20 {
             schedule.push(st);
         }
         let _ = first_match;
-        Scenario { mode: 0, sources, schedule, fs_reads: 0, fs_match: false, fs_drop_after: None, fs_burst: 0, seed: rng.next_u64() }
+        Scenario { mode: 0, sources, schedule, fs_reads: 0, fs_match: false, fs_drop_after: None, fs_burst: 0, fs_inside: false, seed: rng.next_u64() }
     }
 
     fn run(sc: &Scenario, keep: bool) -> Report {
@@ -310,8 +326,17 @@ fn run_exec(sc: &Scenario, log: &mut Log, rep: &mut Report) -> Option<Violation>
             Task { fut: Some(Box::pin(source_prog(ops.clone(), progress.clone()))), flag: Arc::new(Flag(AtomicBool::new(true))), progress, panicked: false }
         })
         .collect();
-    let mut barriers: Vec<Option<Barrier<u32>>> = (0..nslots).map(|_| None).collect();
-    let mut handles: Vec<VecDeque<Triggered<u32>>> = (0..nslots).map(|_| VecDeque::new()).collect();
+    enum AnyB {
+        A(Barrier<u32>),
+        B(Barrier<u64>),
+    }
+    #[allow(dead_code)]
+    enum AnyH {
+        A(Triggered<u32>),
+        B(Triggered<u64>),
+    }
+    let mut barriers: Vec<Option<AnyB>> = (0..nslots).map(|_| None).collect();
+    let mut handles: Vec<VecDeque<AnyH>> = (0..nslots).map(|_| VecDeque::new()).collect();
     // model
     let mut mb: Vec<MBarrier> = Vec::new(); // creation order, incl. dead ones
     let mut mh: Vec<VecDeque<(u32, Option<usize>)>> = (0..nslots).map(|_| VecDeque::new()).collect();
@@ -341,7 +366,7 @@ fn run_exec(sc: &Scenario, log: &mut Log, rep: &mut Report) -> Option<Violation>
                 SrcOp::TriggerNoop(v) => (*v, false, false),
                 SrcOp::TriggerOtherType(v) => (*v, true, true),
             };
-            let matching: Vec<usize> = if other { vec![] } else { mb.iter().enumerate().filter(|(_, b)| b.live && b.values.contains(&v)).map(|(i, _)| i).collect() };
+            let matching: Vec<usize> = mb.iter().enumerate().filter(|(_, b)| b.live && b.other == other && b.values.contains(&v)).map(|(i, _)| i).collect();
             if matching.len() >= 2 {
                 *nontrivial = true;
                 rep.probes.inc("several_live_barriers_match");
@@ -454,7 +479,7 @@ fn run_exec(sc: &Scenario, log: &mut Log, rep: &mut Report) -> Option<Violation>
                     }
                 }
             }
-            Step::Create { slot, react, values } => {
+            Step::Create { slot, react, values, other } => {
                 if barriers[*slot].is_some() {
                     continue;
                 }
@@ -464,37 +489,55 @@ fn run_exec(sc: &Scenario, log: &mut Log, rep: &mut Report) -> Option<Violation>
                     React::Suspend => Reaction::Suspend,
                     React::Panic => Reaction::Panic,
                 };
-                barriers[*slot] = Some(Barrier::build(reaction, move |v: &u32| vals.contains(v)));
-                mb.push(MBarrier { slot: *slot, react: *react, values: values.clone(), queue: VecDeque::new(), live: true });
+                barriers[*slot] = Some(if *other {
+                    rep.probes.inc("barrier_for_the_other_trigger_type");
+                    AnyB::B(Barrier::build(reaction, move |v: &u64| vals.contains(&(*v as u32))))
+                } else {
+                    AnyB::A(Barrier::build(reaction, move |v: &u32| vals.contains(v)))
+                });
+                mb.push(MBarrier { slot: *slot, react: *react, values: values.clone(), queue: VecDeque::new(), live: true, other: *other });
                 log.ev(format!("#{i} create barrier {slot} {:?} {:?}", react, values));
                 log.tag("new");
             }
             Step::Wait { slot } => {
                 let Some(b) = barriers[*slot].as_mut() else { continue };
-                let got = {
-                    let fut = b.wait();
-                    let mut fut = std::pin::pin!(fut);
+                // (value reported, handle)
+                let got: Option<Option<(u32, AnyH)>> = {
                     let mut cx = Context::from_waker(&noop_waker);
-                    match fut.as_mut().poll(&mut cx) {
-                        Poll::Ready(x) => Some(x),
-                        Poll::Pending => None,
+                    match b {
+                        AnyB::A(b) => {
+                            let fut = b.wait();
+                            let mut fut = std::pin::pin!(fut);
+                            match fut.as_mut().poll(&mut cx) {
+                                Poll::Ready(x) => Some(x.map(|t| (*t, AnyH::A(t)))),
+                                Poll::Pending => None,
+                            }
+                        }
+                        AnyB::B(b) => {
+                            let fut = b.wait();
+                            let mut fut = std::pin::pin!(fut);
+                            match fut.as_mut().poll(&mut cx) {
+                                Poll::Ready(x) => Some(x.map(|t| (*t as u32, AnyH::B(t)))),
+                                Poll::Pending => None,
+                            }
+                        }
                     }
                 };
                 let m = mb.iter_mut().rev().find(|m| m.slot == *slot && m.live).expect("model barrier");
                 let expect = m.queue.pop_front();
-                log.ev(format!("#{i} wait barrier {slot} -> {:?} (model {:?})", got.as_ref().map(|o| o.as_ref().map(|t| **t)), expect));
+                log.ev(format!("#{i} wait barrier {slot} -> {:?} (model {:?})", got.as_ref().map(|o| o.as_ref().map(|t| t.0)), expect));
                 log.tag("wait");
                 match (got, expect) {
                     (None, None) => {}
-                    (Some(Some(t)), Some((v, src))) => {
-                        if *t != v {
-                            return Some(Violation::new("WrongTriggerReported", format!("step #{i}: barrier {slot} reported trigger {} but the next matching trigger in order is {v}", *t)));
+                    (Some(Some((t, h))), Some((v, src))) => {
+                        if t != v {
+                            return Some(Violation::new("WrongTriggerReported", format!("step #{i}: barrier {slot} reported trigger {t} but the next matching trigger in order is {v}")));
                         }
-                        handles[*slot].push_back(t);
+                        handles[*slot].push_back(h);
                         mh[*slot].push_back((v, src));
                     }
-                    (Some(Some(t)), None) => {
-                        return Some(Violation::new("UnexpectedTriggerReported", format!("step #{i}: barrier {slot} reported trigger {} that the reference does not route to it (duplicate, or it belongs to an earlier-created barrier / nobody)", *t)));
+                    (Some(Some((t, _))), None) => {
+                        return Some(Violation::new("UnexpectedTriggerReported", format!("step #{i}: barrier {slot} reported trigger {t} that the reference does not route to it (duplicate, or it belongs to an earlier-created barrier / nobody)")));
                     }
                     (None, Some((v, _))) | (Some(None), Some((v, _))) => {
                         return Some(Violation::new("TriggerLost", format!("step #{i}: barrier {slot} has nothing to report but trigger {v} matched it and was not reported yet")));
@@ -520,7 +563,24 @@ fn run_exec(sc: &Scenario, log: &mut Log, rep: &mut Report) -> Option<Violation>
                 }
             }
             Step::DropBarrier { slot } => {
-                if barriers[*slot].take().is_some() {
+                let taken = barriers[*slot].take();
+                let was = taken.is_some();
+                if i % 3 == 0 {
+                    // every third drop happens while a panic unwinds through the barrier's owner
+                    // (the panic is caught: the test goes on, the barrier is gone all the same)
+                    if was {
+                        rep.probes.inc("barrier_dropped_by_an_unwinding_panic");
+                    }
+                    let _ = catch(move || {
+                        let _owner = taken;
+                        if was {
+                            panic!("harness: the owner of the barrier panics");
+                        }
+                    });
+                } else {
+                    drop(taken);
+                }
+                if was {
                     let m = mb.iter_mut().rev().find(|m| m.slot == *slot && m.live).expect("model barrier");
                     m.live = false;
                     // triggers queued but never handed out: their sources are released
@@ -562,7 +622,17 @@ fn run_fs(sc: &Scenario, log: &mut Log, rep: &mut Report) -> Option<Violation> {
     let reads_done = done.clone();
     let gate: Rc<RefCell<u32>> = Rc::new(RefCell::new(0)); // how many reads the host may perform so far
     let gate2 = gate.clone();
+    let matches = sc.fs_match;
+    let bcell: Rc<RefCell<Option<Barrier<FsCorruption>>>> = Rc::new(RefCell::new(None));
+    let inside = sc.fs_inside;
+    if !inside {
+        *bcell.borrow_mut() = Some(Barrier::new(move |c: &FsCorruption| matches && c.path.ends_with("data")));
+    }
+    let bcell2 = bcell.clone();
     sim.client("h", async move {
+        if inside {
+            *bcell2.borrow_mut() = Some(Barrier::new(move |c: &FsCorruption| matches && c.path.ends_with("data")));
+        }
         sfs::write("/data", b"0123456789abcdef")?;
         loop {
             if reads_done.get() >= reads {
@@ -577,8 +647,9 @@ fn run_fs(sc: &Scenario, log: &mut Log, rep: &mut Report) -> Option<Violation> {
         }
         Ok(())
     });
-    let matches = sc.fs_match;
-    let mut barrier: Option<Barrier<FsCorruption>> = Some(Barrier::new(move |c: &FsCorruption| matches && c.path.ends_with("data")));
+    if inside {
+        rep.probes.inc("fs_barrier_created_by_host_software_in_the_tick_of_the_reads");
+    }
     let noop_waker: Waker = Arc::new(Flag(AtomicBool::new(false))).into();
     let mut seen = 0u32;
     let mut expected = 0u32;
@@ -586,7 +657,7 @@ fn run_fs(sc: &Scenario, log: &mut Log, rep: &mut Report) -> Option<Violation> {
     let rounds = reads.div_ceil(burst);
     for k in 0..rounds {
         if sc.fs_drop_after == Some(k) {
-            barrier = None;
+            *bcell.borrow_mut() = None;
             log.ev(format!("drop barrier after {k} reads"));
             rep.faults.inc("barrier_dropped_mid_run");
         }
@@ -605,11 +676,12 @@ fn run_fs(sc: &Scenario, log: &mut Log, rep: &mut Report) -> Option<Violation> {
         if done.get() != upto {
             return Some(Violation::new("ReadBlocked", format!("fs mode: the reads of round {k} did not complete ({} of {upto} done; Noop barriers must never block the triggering code)", done.get())));
         }
-        if barrier.is_some() && matches {
+        if bcell.borrow().is_some() && matches {
             expected += in_round;
         }
         rep.faults.add("corrupting_read", in_round as u64);
-        if let Some(b) = barrier.as_mut() {
+        let mut guard = bcell.borrow_mut();
+        if let Some(b) = guard.as_mut() {
             loop {
                 let got = {
                     let fut = b.wait();
@@ -637,7 +709,7 @@ fn run_fs(sc: &Scenario, log: &mut Log, rep: &mut Report) -> Option<Violation> {
             ));
         }
     }
-    drop(barrier);
+    *bcell.borrow_mut() = None;
     drop(sim);
     rep.nontrivial = reads >= 2;
     rep.probes.inc("fs_corruption_hook_trigger");
